@@ -17,6 +17,13 @@ Theorem C03_route_ok_sound shapes s d r : route_ok shapes s d r = true <-> route
 Proof. exact (route_ok_spec shapes s d r). Qed.
 Print Assumptions C03_route_ok_sound.
 
+(* the exemption-free core of the checker (hyperedge scenes: all attachments in free space, junction ends may be moved) *)
+Theorem C03_segs_clear_exact obst r :
+  segs_clear obst r = true <->
+  forall P a b, In P obst -> In (a, b) (consecutive r) -> segment_avoids P a b.
+Proof. exact (segs_clear_spec obst r). Qed.
+Print Assumptions C03_segs_clear_exact.
+
 Theorem C03_visible_sound obst V u v :
   vis_edge obst V u v = true -> forall P, In P obst -> segment_avoids P (vpt V u) (vpt V v).
 Proof. exact (visible_sound obst V u v). Qed.
